@@ -63,6 +63,10 @@ def corpus_docs(tier):
         ("m", (("a", ("l", (rec(1, "x"), rec(2, "y")))),)),
         ("m", (("a", ("l", (1, 2))), ("b", ("l", ())))),
         ("m", (("a", None), ("b", ("m", ())))),
+        # type clashes between values Python calls equal
+        ("m", (("a", 1), ("b", ("l", (0, 1))))),
+        ("m", (("a", True), ("b", ("l", (False, True))))),
+        ("l", (1, True, 0, False)),
         ("l", (("l", (1, 2)), ("l", (2, 1)))),
     ]
     return docs
@@ -72,7 +76,7 @@ def neighbours(spec):
     """Every single-edit neighbour: replace, delete, insert, adjacent swap."""
     out = []
     if not isinstance(spec, tuple):
-        for alt in (None, 1, 2, "x", "y"):
+        for alt in (None, 1, 2, "x", "y", True):
             if alt != spec or type(alt) is not type(spec):
                 out.append(alt)
         out.append(("l", (spec,)))
@@ -217,7 +221,10 @@ def equal(l, r, arrays, aoh):
     if corpus.is_set(l) and corpus.is_set(r):
         return set(l) == set(r)
     if corpus.is_scalar(l) and corpus.is_scalar(r):
-        return corpus.plain_scalar(l) == corpus.plain_scalar(r) or l == r
+        pl, pr = corpus.plain_scalar(l), corpus.plain_scalar(r)
+        if (pl[0] == "bool") != (pr[0] == "bool"):
+            return False            # a boolean is not the number 1 / 0
+        return pl == pr or l == r
     return False
 
 
